@@ -269,6 +269,8 @@ pub fn grammar_terms(d: usize, big: bool) -> Vec<T> {
     let mut base = vec![atom("a"), atom("two words"), T::Int(1), T::Int(42), T::Float(1.5), x(), v("$Long_name"), T::Anon];
     if big {
         base.extend(vec![atom("B9"), T::Float(0.25), T::Int(0)]);
+        // atoms that look like numbers to a general-purpose number parser; non-ASCII atoms
+        base.extend(vec![atom("1e5"), atom("inf"), atom("NaN"), atom("Ωmega"), atom("été")]);
     }
     if d == 0 {
         return base;
@@ -586,7 +588,15 @@ pub fn grammar_rules(level: u8) -> Vec<Clause> {
     let terms = grammar_terms(1, false);
     let leaves = grammar_leaf_goals(&terms);
     let mut out = vec![];
-    let heads = vec![cplx("h", vec![x()]), cplx("h", vec![x(), list_t(vec![v("$H")], v("$T"))]), cplx("go", vec![]), cplx("two words", vec![atom("a b"), T::Int(1)])];
+    let heads = vec![
+        cplx("h", vec![x()]),
+        cplx("h", vec![x(), list_t(vec![v("$H")], v("$T"))]),
+        cplx("go", vec![]),
+        cplx("two words", vec![atom("a b"), T::Int(1)]),
+        // non-ASCII letters in the head of a rule
+        cplx("αβγδ", vec![atom("déjà"), x()]),
+        cplx("déjeuner", vec![]),
+    ];
     // facts
     for t in grammar_terms(1, false) {
         out.push(Clause { head: cplx("fact", vec![t.clone()]), body: None });
@@ -789,7 +799,7 @@ pub fn c20_texts(big: bool) -> Vec<String> {
         v.push(s.to_string());
     }
     // punctuation and quoted atoms one level down: in a context they sit at depth two
-    for s in ["g(\\,)", "[a, \\,]", "g(\\|)", "g(a, \\,, b)", "[\\,, a]", "name(\"John Smith\")", "[\"John Smith\", b]", "f(\"a, b\", c)", "[f(\"x y\")]", "g([\"p, q\"], z)", "f(g(h(a), b))", "f(g(h(a), b), c)", "[[a, [b]], c]", "f([g(a), b], [c])"] {
+    for s in ["g(\\,)", "[a, \\,]", "g(\\|)", "g(a, \\,, b)", "[\\,, a]", "name(\"John Smith\")", "[\"John Smith\", b]", "f(\"a, b\", c)", "[f(\"x y\")]", "g([\"p, q\"], z)", "f(g(h(a), b))", "f(g(h(a), b), c)", "[[a, [b]], c]", "f([g(a), b], [c])", "Ωmega", "f(Ω)", "f(Ω, x)", "g(x, Ωmega)", "[été, b]", "inf", "NaN", "2E3"] {
         v.push(s.to_string());
     }
     v.dedup();
